@@ -56,9 +56,25 @@ class ContainerMixin:
         a, _ = self._darr(st, d, "#dom")
         return z3.Select(a, d.obj)
 
+    _dict_wit = {}
+
     def dict_len(self, st, d):
         a, _ = self._darr(st, d, "#cnt")
-        return z3.Select(a, d.obj)
+        c = z3.Select(a, d.obj)
+        # the counter is the cardinality of the domain (kept by every dict operation of this model):
+        # 0 exactly for the empty domain; a positive count has a witness key
+        dom = self.dict_dom(st, d)
+        ks = sort_of(d.kty)
+        if str(ks) not in self._dict_wit:
+            self._dict_wit[str(ks)] = z3.Function("somekey!" + str(ks), z3.ArraySort(ks, z3.BoolSort()), ks)
+        wit = self._dict_wit[str(ks)](dom)
+        kk = z3.Const("k!card", ks)
+        fact = z3.And(c >= 0, z3.Implies(c == 0, z3.ForAll([kk], z3.Not(z3.Select(dom, kk)))), z3.Implies(c > 0, z3.Select(dom, wit)))
+        seen = st.hs.__dict__.setdefault("_card_ids", set())
+        if fact.get_id() not in seen:
+            seen.add(fact.get_id())
+            st.hs.axioms.append(fact)
+        return c
 
     def dict_has(self, st, d, k):
         return z3.Select(self.dict_dom(st, d), coerce(k, d.kty).t)
@@ -132,6 +148,43 @@ class ContainerMixin:
         if m == "values":
             from .flow import DictValues
             return k(DictValues(recv), st)
+        if m == "pop" and len(args) == 1 and not kwargs:
+            # d.pop(key): remove and return the value (KeyError when missing)
+            def got(v, s):
+                if type(v).__name__ == "DictEntryList":
+                    v = self.get_list(s, v)
+                outs = self.dict_del(s, recv, args[0])
+                res = []
+                for o, s2 in outs:
+                    res.extend(k(v, s2) if o.kind == "N" else [(o, s2)])
+                return res
+            return self.dict_get(st, recv, args[0], got)
+        if m == "popitem" and len(args) == 1 and getattr(recv, "sorted", False) and (
+                (isinstance(args[0], PyConst) and args[0].v == 0) or
+                (isinstance(args[0], Val) and args[0].ty[0] == "int" and z3.is_int_value(z3.simplify(args[0].t)) and z3.simplify(args[0].t).as_long() == 0)):
+            # SortedDict.popitem(0): remove and return the item with the smallest key (KeyError when empty)
+            self.assumptions_used.add("sortedcontainers.SortedDict: popitem(0) removes and returns the item with the smallest key; "
+                                      "otherwise it behaves like dict")
+            ks = sort_of(recv.kty)
+            kmin = fresh("kmin", ks)
+            dom = self.dict_dom(st, recv)
+            kk = z3.Const("k!sd", ks)
+
+            def nonempty(s):
+                s.assume(z3.Select(dom, kmin))
+                s.assume(z3.ForAll([kk], z3.Implies(z3.Select(dom, kk), kmin <= kk)))
+                kv = Val(recv.kty, kmin)
+
+                def got(v, s2):
+                    if type(v).__name__ == "DictEntryList":
+                        v = self.get_list(s2, v)
+                    res = []
+                    for o, s3 in self.dict_del(s2, recv, kv):
+                        res.extend(k(PyTup([kv, v]), s3) if o.kind == "N" else [(o, s3)])
+                    return res
+                return self.dict_get(s, recv, kv, got)
+            return self.split(st, self.dict_len(st, recv) > 0, nonempty, lambda s: self.raise_exc(s, "KeyError", "popitem(): dictionary is empty"),
+                              label="sd-nonempty")
         if m == "clear" and not args and not kwargs:
             self.dict_clear(st, recv)
             return k(PyConst(None), st)
@@ -178,6 +231,80 @@ class ContainerMixin:
         new_n = z3.Lambda([kk], z3.If(z3.Select(dom, kk), z3.Select(cur_n, kk) + 1, z3.Select(cur_n, kk)))
         st.hset(vak, z3.Store(va, d.obj, new_a))
         st.hset(vnk, z3.Store(vn, d.obj, new_n))
+
+    # ---- heapq on a list (stdlib contract, assumed): the list is abstracted by its bag (multiset) of elements
+    _bag_fns = {}
+
+    def bag_term(self, st, lv):
+        es = sort_of(lv.ety)
+        key = str(es)
+        if key not in self._bag_fns:
+            self._bag_fns[key] = z3.Function("bag!" + key, z3.ArraySort(z3.IntSort(), es), z3.IntSort(), z3.ArraySort(es, z3.IntSort()))
+        f = self._bag_fns[key]
+        seen = st.hs.__dict__.setdefault("_bag_sorts", set())
+        if key not in seen:
+            seen.add(key)
+            # definitional facts of "number of occurrences of k among the first n elements of a", for all a, n
+            a_ = z3.Const("a!bag", z3.ArraySort(z3.IntSort(), es))
+            n_ = z3.Const("n!bag", z3.IntSort())
+            kk = z3.Const("k!bag", es)
+            i = z3.Const("i!bag", z3.IntSort())
+            sel = z3.Select(f(a_, n_), kk)
+            st.hs.axioms.append(z3.ForAll([a_, n_, kk], z3.And(sel >= 0, z3.Implies(n_ <= 0, sel == 0)), patterns=[sel]))
+            st.hs.axioms.append(z3.ForAll([a_, n_, i], z3.Implies(z3.And(0 <= i, i < n_), z3.Select(f(a_, n_), z3.Select(a_, i)) >= 1),
+                                          patterns=[z3.MultiPattern(f(a_, n_), z3.Select(a_, i))]))
+            st.hs.axioms.append(z3.ForAll([a_, n_], z3.Implies(n_ >= 1, z3.Select(f(a_, n_), z3.Select(a_, 0)) >= 1), patterns=[f(a_, n_)]))
+        return f(lv.arr, z3.simplify(lv.n))
+
+    def is_heap_term(self, lv):
+        i = z3.Const("i!heap", z3.IntSort())
+        return z3.ForAll([i], z3.Implies(z3.And(1 <= i, i < lv.n), z3.Select(lv.arr, (i - 1) / 2) <= z3.Select(lv.arr, i)))
+
+    def heap_op(self, st, lst, k, push=None):
+        """heapq.heappush(lst, x) / heapq.heappop(lst): needs a heap-ordered list (obligation), keeps it heap-ordered,
+        adds / removes one occurrence; heappop returns lst[0], which is <= every element"""
+        lv = self.get_list(st, lst)
+        if lv.ety[0] not in ("int", "real"):
+            raise Unsupported("heapq on non-numeric elements")
+        self.assumptions_used.add("stdlib contract of heapq.heappush/heappop on a heap-ordered list (heap order kept, one occurrence "
+                                  "added/removed, heappop returns the smallest element)")
+        self.emit(st, "stdlib_pre", "heapq.requires_heap_order", "the list handed to heapq is heap-ordered", self.is_heap_term(lv))
+        b_old = self.bag_term(st, lv)
+        new_arr = fresh("heap", lv.arr.sort())
+        if push is not None:
+            x = coerce(push, lv.ety).t
+            nl = LVal(lv.ety, new_arr, lv.n + 1, lv.kind)
+            st.assume(self.is_heap_term(nl))
+            st.assume(self.bag_term(st, nl) == z3.Store(b_old, x, z3.Select(b_old, x) + 1))
+            self.set_list(st, lst, nl)
+            return k(PyConst(None), st)
+
+        def nonempty(s):
+            r = z3.Select(lv.arr, 0)
+            nl = LVal(lv.ety, new_arr, lv.n - 1, lv.kind)
+            s.assume(self.is_heap_term(nl))
+            s.assume(self.bag_term(s, nl) == z3.Store(b_old, r, z3.Select(b_old, r) - 1))
+            kk = z3.Const("k!min", sort_of(lv.ety))
+            s.assume(z3.ForAll([kk], z3.Implies(z3.Select(b_old, kk) >= 1, r <= kk)))
+            self.set_list(s, lst, nl)
+            return k(Val(lv.ety, r), s)
+        return self.split(st, lv.n > 0, nonempty, lambda s: self.raise_exc(s, "IndexError", "index out of range"), label="heap-nonempty")
+
+    def bi_ExitStack(self, args, kwargs, st, k):
+        if args or kwargs or "ExitStack" not in self.reg.models:
+            raise Unsupported("contextlib.ExitStack (no abstract model registered)")
+        return k(self.alloc(st, "ExitStack", "xstack"), st)
+
+    def bi_SortedDict(self, args, kwargs, st, k):
+        if args or kwargs:
+            raise Unsupported("SortedDict(...) with arguments")
+        return k(DictLit({}, sorted=True), st)
+
+    def bi_heappush(self, args, kwargs, st, k):
+        return self.heap_op(st, args[0], k, push=args[1])
+
+    def bi_heappop(self, args, kwargs, st, k):
+        return self.heap_op(st, args[0], k)
 
     # ---- DictEntryList as a list reference
     def get_list(self, st, lv):
